@@ -15,7 +15,7 @@ func TestC08(t *testing.T) {
 	mon.Main(t, mon.Check{
 		ID:          "C08",
 		Level:       "exploration",
-		Rule:        "two real noise Machines after a real XX or KK handshake exchange 0..6000 records per direction (up to 12 key rotations) of sizes {0,1,2,16,100,1000,65535}, all-equal or distinct plaintexts; the order of the four operations (client writes, server writes, server reads, client reads) is a PRNG schedule, including bursts in which both directions cross a rotation boundary while records are in flight. Before every write the (key, nonce) pair about to be used is read through the hook. Oracles: no (key, nonce) pair is ever used twice, neither within a direction nor across directions or machines; writer and reader change keys at the same record indices; every read returns exactly the plaintext written at that index; equal plaintexts never give equal ciphertexts; the plaintext markers and the auth payload (raw, hex, base64) occur nowhere in the bytes written during the handshake or the stream. Non-trivial = at least one rotation in each direction that carried traffic; distinct = (pattern, record counts, schedule hash).",
+		Rule:        "two real noise Machines after a real XX or KK handshake exchange 0..6000 records per direction (up to 12 key rotations) of sizes {0,1,2,16,100,1000,65535}, all-equal or distinct plaintexts; the order of the four operations (client writes, server writes, server reads, client reads) is a PRNG schedule, including bursts in which both directions cross a rotation boundary while records are in flight. Before every write the (key, nonce) pair about to be used is read through the hook. Oracles: no (key, nonce) pair is ever used twice, neither within a direction nor across directions or machines; writer and reader change keys at the same record indices; every read returns exactly the plaintext written at that index; equal plaintexts never give equal ciphertexts; the plaintext markers and the auth payload (raw, hex, base64) occur nowhere in the bytes written during the handshake or the stream. In a third of the sessions a quarter of the records are flushed through a writer that accepts a PRNG number of bytes and times out; the writer flushes again until the record is out, meanwhile the same Machine reads a record of the other direction or is offered (and must refuse) the next record. Non-trivial = at least one rotation in each direction that carried traffic; distinct = (pattern, record counts, schedule hash).",
 		Assumptions: []string{"secrecy is decided in its observable form only (markers absent from the wire)"},
 		NCases: func(tier string) int {
 			if tier == "thorough" {
